@@ -274,6 +274,32 @@ def cost_shapes(tier):
             return [("linear_cost_integral_within_rounding", True, And(2 * v - twice < 2, twice - 2 * v < 2))]
 
         out.append(shape(f"cost_linear/slope_{slope}_icpt_{icpt}", build, defs))
+    # one indicator over several workers with time-dependent costs: the halves are added before the single rounding
+    for nw, (sl, ic) in [(2, ("sym", "sym")), (3, ((1, 3, 5), (0, 1, 2)))] + ([(2, ((1, 1), (0, 0))), (3, ("sym", "sym"))] if tier != "quick" else []):
+        def build(P, nw=nw, sl=sl, ic=ic):
+            pb, hv = new_problem(P, False)
+            tis = _tasks(P, tuple(["fixed", "var", "fixed"][:nw]), tuple([False] * nw))
+            ws, coef = [], []
+            for k in range(nw):
+                if sl == "sym":
+                    f = ps.LinearFunction(slope=P.int(f"slope{k}", ph=1 + k, lo=0, hi=6), intercept=P.int(f"icpt{k}", ph=k, lo=0, hi=6))
+                    coef.append((P.v(f"slope{k}"), P.v(f"icpt{k}")))
+                else:
+                    f = ps.LinearFunction(slope=sl[k], intercept=ic[k])
+                    coef.append((sl[k], ic[k]))
+                w = ps.Worker(name=f"W{k}", cost=f)
+                tis[k].obj.add_required_resource(w)
+                ws.append(w)
+            ind = ps.IndicatorResourceCost(list_of_resources=ws)
+            return Ctx(problem=pb, tis=tis, ws=ws, ind=ind, coef=coef)
+
+        def defs(ctx):
+            v = ctx.ind._indicator_variable
+            twice = Sum([(to_z3(a) * bs + to_z3(b) + to_z3(a) * be + to_z3(b)) * (be - bs)
+                         for w, (a, b) in zip(ctx.ws, ctx.coef) for bs, be in w._busy_intervals.values()])
+            return [("total_linear_cost_within_one_rounding", True, And(2 * v - twice < 2, twice - 2 * v < 2))]
+
+        out.append(shape(f"cost_linear_several_workers/{nw}/{'sym' if sl == 'sym' else 'grid'}", build, defs))
     # polynomial cost C(x) = a_n x^n + ... + a_0 (coefficients listed from a_n down to a_0): concrete coefficients,
     # symbolic dates; the indicator is the documented trapezoid of C over each busy interval
     polys = [(1, 0, 0), (2, 1, 3), (0, 0, 5), (1, 2), (4,), (1, 0, 2, 1)]
